@@ -63,6 +63,14 @@ func (n *timedStruct) Post(ctx context.Context, s *flyt.SharedStore, p, x any) (
 
 type timedStructFb struct{ timedStruct }
 
+// a struct node that embeds *flyt.BaseNode (whose own wait is zero) and answers GetWait itself
+type timedStructOv struct {
+	timedStruct
+	w time.Duration
+}
+
+func (n *timedStructOv) GetWait() time.Duration { return n.w }
+
 func (n *timedStructFb) ExecFallback(p any, err error) (any, error) {
 	n.t.mark("fb", 0)
 	return "fallback", nil
@@ -147,6 +155,8 @@ func runTimingScenario(cfg TimingCfg) []Event {
 		} else {
 			node = &ts
 		}
+	case "structov":
+		node = &timedStructOv{timedStruct{BaseNode: flyt.NewBaseNode(flyt.WithMaxRetries(cfg.N)), t: t}, wait}
 	case "func":
 		fnode := flyt.NewNode()
 		if cfg.Fb {
@@ -221,7 +231,7 @@ func init() {
 			return
 		}
 		r := rand.New(rand.NewSource(seed))
-		kinds := []string{"struct", "func", "batch"}
+		kinds := []string{"struct", "func", "batch", "structov"}
 		// T1: short waits, every failure sequence
 		for _, w := range []int{1, 5, 20, 50} {
 			for n := 2; n <= 5; n++ {
@@ -236,7 +246,7 @@ func init() {
 					for i := range sc {
 						sc[i] = mask&(1<<uint(i)) != 0
 					}
-					c := TimingCfg{W: w, N: n, Kind: kinds[r.Intn(3)], Script: sc, ErrKind: len(cfgs) % 4}
+					c := TimingCfg{W: w, N: n, Kind: kinds[r.Intn(4)], Script: sc, ErrKind: len(cfgs) % 4}
 					if c.Kind == "batch" {
 						c.Items, c.C = 1+r.Intn(3), r.Intn(3)
 					}
